@@ -237,7 +237,7 @@ def branch_histogram(lines):
 
 # ------------------------------------------------------------------------------------------------
 
-def run_split(ctx, model, impl, cases, tag, fuel=40000, timeout=150, nproc=8):
+def run_split(ctx, model, impl, cases, tag, fuel=40000, timeout=100, nproc=8):
     """Model in one process, implementation in `nproc` parallel processes (chunks of the case list), each under a
     watchdog: a harness that hangs or crashes on some case loses only the rest of its chunk.  Returns the logs and the
     first case without a complete implementation log (or None)."""
